@@ -588,6 +588,12 @@ package variants
 //@   assigns nothing
 //@   nopanic
 //
+// ---- package-level values (established by the package initialiser, never written afterwards) -------------------
+//@ globalinv Empty != nil && allocated(Empty) && vinv(Empty) && Empty.typ == Null
+//@ func init
+//@   requires !initrun()
+//@   ensures Empty != nil && vinv(Empty) && Empty.typ == Null
+
 // ==== GENERATED by /verif/tools/gen_variant_ops_contracts.py - BEGIN ====
 //@ func (c *AbstractVariantOperations) Add
 //@   requires c != nil && c.Overrides != nil && vinv(value1) && vinv(value2)
